@@ -1,4 +1,5 @@
-import FormulaicVerif.Proofs.C09
+import FormulaicVerif.Proofs.C09Ext
+import FormulaicVerif.Proofs.C09Order
 /-! # C09 — Reusing a spec on incompatible data fails loudly and never reshapes columns
 
 "When a recorded spec is applied to new data, a factor whose kind (categorical versus numerical)
@@ -61,14 +62,10 @@ theorem kind_change_is_error (specs : List Spec) (fr : Frame) (order : List Stri
     (hk : newKind fr d = .ok k) (hne : k ≠ r.kind)
     (hothers : ∀ g ∈ pooledFactors specs, ∀ dr e', evalFactor es fr g dr = .error e' → e' = .factorEncoding) :
     replay specs fr order = .error .factorEncoding := by
-  have hmem := mem_orderedFactors specs order d hd hord
-  obtain ⟨pre, post, hsplit⟩ := List.append_of_mem hmem
-  have hsub : ∀ g ∈ orderedFactors specs order, g ∈ pooledFactors specs := by
-    intro g hg
-    obtain ⟨e, _, hf⟩ := List.mem_filterMap.mp hg
-    exact List.mem_of_find?_eq_some hf
+  obtain ⟨pre, post, hsplit, hfirst⟩ := orderedFactors_split specs order d hd hord
+  have hsub := orderedFactors_sub specs order
   have := evalPhase_error_at es fr .factorEncoding d
-    (fun dr => evalFactor_kind_change es fr d dr k r hk hrec hne) pre post [] []
+    (fun dr => evalFactor_kind_change es fr d dr k r hk hrec hne) pre post [] [] rfl hfirst
     (fun g hg dr e' he => hothers g (hsub g (by rw [hsplit]; simp [hg])) dr e' he)
   simp [replay, hes, hsplit, this]
 
@@ -81,10 +78,9 @@ theorem kind_change_never_matrix (specs : List Spec) (fr : Frame) (order : List 
     (hrec : dget d.expr es.encoderState = some r)
     (hk : newKind fr d = .ok k) (hne : k ≠ r.kind) :
     ∃ e, replay specs fr order = .error e := by
-  have hmem := mem_orderedFactors specs order d hd hord
-  obtain ⟨pre, post, hsplit⟩ := List.append_of_mem hmem
+  obtain ⟨pre, post, hsplit, hfirst⟩ := orderedFactors_split specs order d hd hord
   obtain ⟨e, he⟩ := evalPhase_never_ok es fr .factorEncoding d
-    (fun dr => evalFactor_kind_change es fr d dr k r hk hrec hne) pre post [] []
+    (fun dr => evalFactor_kind_change es fr d dr k r hk hrec hne) pre post [] [] rfl hfirst
   exact ⟨e, by simp [replay, hes, hsplit, he]⟩
 
 /-- C09.4  `enforce_never_broadcasts_kind_change`: whenever a replay gets as far as
@@ -123,19 +119,23 @@ theorem replay_names_recorded (specs : List Spec) (fr : Frame) (order : List Str
   rw [hn, flatMap_dictKeys_nodup _ hnd]
   rfl
 
-/-- C09.2b  `pinned_levels_fix_columns`: encoding a categorical factor against pinned (recorded)
-levels yields one column per recorded level (minus the reference level under reduced rank), named
-from the recorded level alone; cell by cell it is the indicator of that level; the column of a
-level that no retained row holds is therefore present and all zero. -/
+/-- C09.2b  `pinned_levels_fix_columns`: encoding a dummy-coded categorical factor (a bare column or
+`C(x)`) against nominated levels — the recorded ones, or an explicit `levels=` — yields one column per
+level (minus the reference level under reduced rank), named from the level alone; cell by cell it is
+the indicator of that level; the column of a level that no retained row holds is therefore present
+and all zero. (The levels are distinct, as `pandas.Categorical` demands; the last hypothesis excludes
+the one route on which `Contrasts.apply` refuses an empty encoding: `C(x)` under `output='narwhals'`.) -/
 theorem pinned_levels_fix_columns (s : Spec) (fr : Frame) (drop : List Nat) (ev : Evaled) (red : Bool)
-    (L : List Val) (hk : ev.kind = .categorical) (hp : pinnedOf s ev.decl.expr = some L) :
+    (L : List Val) (hk : ev.kind = .categorical) (hp : nominatedLevels s ev.decl = some L)
+    (hnd : hasDupVal L = false) (hc : (callArgs ev.decl).1 = .default)
+    (hsc : encoderShortCircuitFails s.output ev.decl.via L red = false) :
     ∃ cols w, encodeFactor s fr drop ev red = .ok (cols, w) ∧
       cols.map (·.name) = (if red then L.drop 1 else L).map (levelName ev.decl.expr red) ∧
       (∀ c, c ∈ cols ↔ ∃ l ∈ (if red then L.drop 1 else L),
           c = ⟨levelName ev.decl.expr red l, (dropRows drop ev.cells).map (indicator l)⟩) ∧
       (∀ l ∈ (if red then L.drop 1 else L), some l ∉ dropRows drop ev.cells →
           (⟨levelName ev.decl.expr red l, List.replicate (dropRows drop ev.cells).length (some 0)⟩ : EncCol) ∈ cols) := by
-  refine ⟨_, _, encodeFactor_pinned s fr drop ev red L hk hp, dummyColumns_names _ _ _ _,
+  refine ⟨_, _, encodeFactor_pinned s fr drop ev red L hk hp hnd hc hsc, dummyColumns_names _ _ _ _,
     fun c => dummyColumns_mem _ _ _ _ c, ?_⟩
   intro l hl habs
   rw [dummyColumns_mem]
@@ -158,7 +158,7 @@ theorem absent_levels_zero_columns (specs : List Spec) (fr : Frame) (order : Lis
           ∀ e ∈ r.fin, RawOrigin p.1 fr drop cache r.t e ∧
             ∀ (scale : Rat) (rp : List EncCol) (ev : Evaled) (red : Bool) (L : List Val) (l : Val),
               productEntry scale rp = .ok e →
-              ev.kind = .categorical → pinnedOf p.1 ev.decl.expr = some L →
+              ev.kind = .categorical → nominatedLevels p.1 ev.decl = some L →
               some l ∉ dropRows drop ev.cells →
               (⟨levelName ev.decl.expr red l, (dropRows drop ev.cells).map (indicator l)⟩ : EncCol) ∈ rp →
               ZeroOrNaN e.vals ∧ ((∀ c ∈ rp, NoNaN c.vals) → ∀ v ∈ e.vals, v = some 0) := by
@@ -209,9 +209,10 @@ theorem generated_names_data_independent (s : Spec) (t : TermStruct)
     rw [termColumns_names s fr₁ drop₁ cache₁ hc₁ t gen₁ w₁ ns h₁ hn,
       termColumns_names s fr₂ drop₂ cache₂ hc₂ t gen₂ w₂ ns h₂ (hfun ▸ hn)]
 
-theorem termNames_defined (s : Spec) (ko : String → Option Kind) (t : TermStruct)
-    (h : ∀ st ∈ t.scopedTerms, ∀ sf ∈ st.factors, ∃ k, ko sf.expr = some k ∧
-      (k = .categorical → (pinnedOf s sf.expr).isSome)) : (termNames s ko t).isSome :=
+theorem termNames_defined (s : Spec) (ko : String → Option (Kind × FactorDecl)) (t : TermStruct)
+    (h : ∀ st ∈ t.scopedTerms, ∀ sf ∈ st.factors, ∃ k d, ko sf.expr = some (k, d) ∧
+      (k = .categorical → ∃ L, nominatedLevels s d = some L ∧
+        (codedNames d.expr (callArgs d).1 sf.reduced L).isSome)) : (termNames s ko t).isSome :=
   termNames_isSome s ko t h
 
 /-- the cache a successful evaluation phase leaves behind is keyed coherently, every entry has the
@@ -261,7 +262,7 @@ theorem unseen_levels_no_reshape (specs : List Spec) (fr : Frame) (order : List 
       (p.2.warn = true ↔ ∃ t ∈ p.1.structure_, ∃ st ∈ t.scopedTerms, ∃ sf ∈ st.factors, ∃ ev,
           dget sf.expr cache = some ev ∧ FactorWarns p.1 drop ev) ∧
       (es.naAction = .drop → ∀ sf ev, dget sf cache = some ev →
-        (FactorWarns p.1 drop ev ↔ ev.kind = .categorical ∧ ∃ L, pinnedOf p.1 ev.decl.expr = some L ∧
+        (FactorWarns p.1 drop ev ↔ ev.kind = .categorical ∧ ∃ L, nominatedLevels p.1 ev.decl = some L ∧
           ∃ v, some v ∈ dropRows drop ev.cells ∧ v ∉ L)) := by
   obtain ⟨es, cache, drop, hes, hev, hb⟩ := replay_ok specs fr order rs h
   obtain ⟨_, hz⟩ := buildAll_zip fr drop cache specs rs hb
@@ -295,11 +296,11 @@ theorem derived_spec_keeps_record (specs specs' : List Spec) (steps : List Step)
       s'.encoderState = s.encoderState ∧ s'.transformState = s.transformState ∧
       s'.naAction = s.naAction ∧ s'.ensureFullRank = s.ensureFullRank ∧ s'.output = s.output ∧
       (∀ t ∈ s'.terms, t ∈ s.terms) ∧ (∀ t ∈ s'.structure_, t ∈ s.structure_) ∧
-      (∀ e, pinnedOf s' e = pinnedOf s e) := by
+      (∀ d, nominatedLevels s' d = nominatedLevels s d) := by
   intro s' hs'
   obtain ⟨s, hs, hd⟩ := derive_derived steps specs specs' h s' hs'
   exact ⟨s, hs, hd.enc, hd.ts, hd.na, hd.efr, hd.out, hd.terms, hd.rows,
-    fun e => by simp [pinnedOf, hd.enc]⟩
+    fun d => by simp [nominatedLevels, hd.enc]⟩
 
 /-- C09.5b  `derived_kind_change_never_matrix`: reuse of a derived single spec (any history of
 part / subset / round-trip steps): a factor of ANY retained term — alone or only inside an
@@ -348,7 +349,8 @@ theorem derived_names_recorded (specs : List Spec) (steps : List Step) (fr : Fra
     ∃ specs', derive specs steps = .ok specs' ∧ replay specs' fr order = .ok rs ∧
       rs.length = specs'.length ∧ ∀ p ∈ specs'.zip rs,
         p.2.names = p.1.structure_.flatMap (fun t => dictKeys t.columns) ∧
-        ∃ s ∈ specs, (∀ t ∈ p.1.structure_, t ∈ s.structure_) ∧ ∀ e, pinnedOf p.1 e = pinnedOf s e := by
+        ∃ s ∈ specs, (∀ t ∈ p.1.structure_, t ∈ s.structure_) ∧
+          ∀ d, nominatedLevels p.1 d = nominatedLevels s d := by
   unfold replayDerived at h
   cases hd : derive specs steps with
   | error e => simp [hd] at h
@@ -359,6 +361,288 @@ theorem derived_names_recorded (specs : List Spec) (steps : List Step) (fr : Fra
     obtain ⟨s, hs, _, _, _, _, _, _, hrows, hpin⟩ :=
       derived_spec_keeps_record specs specs' steps hd p.1 (List.of_mem_zip hp).1
     exact ⟨s, hs, hrows, hpin⟩
+
+
+/-! ## Contrasts other than the default treatment coding (`C(x, contr.…)`, custom contrasts), explicit
+`levels=` — reuse against nominated levels for an ARBITRARY coding matrix -/
+
+/-- C09.6a  `coded_columns_fixed_by_levels`: whatever the contrast — treatment/SAS with a base, sum,
+Helmert, difference, polynomial, a custom matrix or dictionary — the encoding of a categorical factor
+against nominated levels `L` succeeds or fails, and names its columns, in a way that does not depend
+on any cell of the data: levels lost or gained by the new data cannot add, remove or rename a column,
+nor turn a working coding into a failing one. -/
+theorem coded_columns_fixed_by_levels (expr : String) (c : Contr) (red : Bool) (L : List Val)
+    (cells₁ cells₂ : List Cell) (cols₁ : List EncCol)
+    (h : codedColumns expr c red L cells₁ = .ok cols₁) :
+    ∃ cols₂, codedColumns expr c red L cells₂ = .ok cols₂ ∧
+      cols₂.map (·.name) = cols₁.map (·.name) ∧ codedNames expr c red L = some (cols₁.map (·.name)) := by
+  have h1 := codedColumns_names expr c red L cells₁ cols₁ h
+  obtain ⟨cols₂, h2⟩ := codedColumns_total expr c red L cells₂ _ h1
+  have h3 := codedColumns_names expr c red L cells₂ cols₂ h2
+  exact ⟨cols₂, h2, by rw [h1] at h3; exact (Option.some.inj h3).symm, h1⟩
+
+/-- C09.6a'  `builtin_contrasts_always_codable`: the default coding, `contr.sum`, `contr.helmert` and
+`contr.diff` (any options) can be coded against ANY list of nominated levels — so for them the
+hypothesis of `termNames_defined` asks for nominated levels only, and no data set can make a reuse of
+such a factor fail in `Contrasts.apply`. (`contr.treatment/SAS` need their base among the levels,
+`contr.poly` as many scores as levels, a custom matrix as many rows as levels.) -/
+theorem builtin_contrasts_always_codable (expr : String) (c : Contr) (red : Bool) (L : List Val) (cells : List Cell)
+    (hc : c = .default ∨ c = .sum ∨ (∃ r s, c = .helmert r s) ∨ (∃ b, c = .diff b)) :
+    (codedNames expr c red L).isSome ∧ ∃ cols, codedColumns expr c red L cells = .ok cols := by
+  have h := codedNames_builtin expr c red L hc
+  refine ⟨h, ?_⟩
+  cases hn : codedNames expr c red L with
+  | none => simp [hn] at h
+  | some ns => exact codedColumns_total expr c red L cells ns hn
+
+/-- C09.6b  `coded_cell_is_matrix_row`: `dummies @ coding_matrix` cell by cell, for ANY coding matrix
+`M` (one row per level) and distinct levels: a cell holding the `i`-th level contributes entry
+`M[i][j]` to coded column `j`; a cell holding none of the levels — a value unseen at fit time, a
+null — contributes 0 to every coded column (the zero row, as for the dummy coding). A level that is
+absent from the new data simply never selects its row: its columns are still there. -/
+theorem coded_cell_is_matrix_row (L : List Val) (M : List (List Rat)) (j : Nat)
+    (hnd : hasDupVal L = false) (hM : ∀ row ∈ M, j < row.length) :
+    (∀ (i : Nat) (hi : i < L.length) (row : List Rat) (v : Rat), M[i]? = some row → row[j]? = some v →
+        codedCell L M j (some L[i]) = some v) ∧
+    (∀ c : Cell, (∀ l ∈ L, c ≠ some l) → codedCell L M j c = some 0) :=
+  codedCell_row L M j ((hasDupVal_false_iff L).mp hnd) hM
+
+/-- C09.6c  `contrast_coded_factor_on_reuse`: a categorical factor coded by a matrix contrast (sum,
+Helmert, difference, polynomial, custom) that is successfully encoded against nominated levels `L`
+(recorded at fit time, or an explicit `levels=`): the levels are distinct; the warning flag is raised
+exactly when a retained cell is none of them; and the columns are those of `Contrasts.apply` — none at
+all in the empty short-circuit, else one per coding column name (a function of the contrast and `L`
+only), column `j` holding `dummies @ coding_matrix[:, j]` (see `coded_cell_is_matrix_row`), the matrix
+having one row per nominated level. -/
+theorem contrast_coded_factor_on_reuse (s : Spec) (fr : Frame) (drop : List Nat) (ev : Evaled) (red : Bool)
+    (cols : List EncCol) (w : Bool) (L : List Val)
+    (hk : ev.kind = .categorical) (hp : nominatedLevels s ev.decl = some L)
+    (hc : IsMatrixCoded (callArgs ev.decl).1)
+    (h : encodeFactor s fr drop ev red = .ok (cols, w)) :
+    hasDupVal L = false ∧
+    (w = true ↔ ∃ c ∈ dropRows drop ev.cells, c = none ∨ ∃ v, c = some v ∧ v ∉ L) ∧
+    ((shortCircuit L red = true ∧ cols = []) ∨
+      ∃ M fields, codingMatrix (callArgs ev.decl).1 L red = .ok M ∧ M.length = L.length ∧
+        codingFields (callArgs ev.decl).1 L red = .ok fields ∧
+        cols.map (·.name) = fields.map (fieldName (callArgs ev.decl).1 ev.decl.expr red) ∧
+        ∀ (j : Nat) (f : String), fields[j]? = some f →
+          cols[j]? = some ⟨fieldName (callArgs ev.decl).1 ev.decl.expr red f,
+            (dropRows drop ev.cells).map (codedCell L M j)⟩) := by
+  obtain ⟨_, L', hpl, _, hcc⟩ := encodeFactor_cat_ok s fr drop ev red cols w hk h
+  rw [hp] at hpl
+  obtain ⟨hnd, rfl, hw⟩ := pinnedLevels_some _ _ _ _ _ hpl
+  refine ⟨hnd, by rw [hw, hasUnseen_iff], ?_⟩
+  by_cases hsc : shortCircuit L' red = true
+  · left
+    rw [codedColumns_matrix _ _ hc] at hcc
+    simp only [hsc, if_true, Except.ok.injEq] at hcc
+    exact ⟨hsc, hcc.symm⟩
+  · right
+    exact matrix_coded_columns _ _ hc red L' _ cols hcc (by simpa using hsc)
+
+/-- C09.6d  `treatment_base_on_reuse`: `contr.treatment(base)` / `contr.SAS(base)` on reuse: the dummy
+columns of every nominated level but the base (all of them at full rank), named from the levels
+alone; a level absent from the retained rows has an all-zero column; a base that is not among the
+nominated levels is an error whatever the data. -/
+theorem treatment_base_on_reuse (expr : String) (sas : Bool) (base : Option Val) (red : Bool) (L : List Val)
+    (cells : List Cell) :
+    (∀ cols, codedColumns expr (.treatment sas base) red L cells = .ok cols →
+      (shortCircuit L red = true ∧ cols = []) ∨
+      ∃ i, findBase sas base L = .ok i ∧
+        cols = (if red then L.eraseIdx i else L).map
+          (fun l => ⟨fieldName (.treatment sas base) expr red l.render, cells.map (indicator l)⟩) ∧
+        ∀ l ∈ (if red then L.eraseIdx i else L), some l ∉ cells →
+          (⟨fieldName (.treatment sas base) expr red l.render, List.replicate cells.length (some 0)⟩ : EncCol) ∈ cols) ∧
+    (shortCircuit L red = false → (∃ e, findBase sas base L = .error e) →
+      ∃ e, codedColumns expr (.treatment sas base) red L cells = .error e) := by
+  refine ⟨?_, ?_⟩
+  · intro cols h
+    rcases treatment_coded_columns expr sas base red L cells cols h with h' | ⟨i, hi, hcols⟩
+    · exact Or.inl h'
+    · refine Or.inr ⟨i, hi, hcols, ?_⟩
+      intro l hl habs
+      rw [hcols, List.mem_map]
+      exact ⟨l, hl, by rw [indicator_absent l _ habs]⟩
+  · rintro hsc ⟨e, he⟩
+    exact ⟨e, by simp [codedColumns, hsc, he]⟩
+
+/-- C09.6e  `generated_columns_are_products_of_encodings`: in a successful replay, every column a
+term generates is the intercept, or the scaled product of one column from the encoding of EACH factor
+of one of its scoped terms — the encodings being those of `pinned_levels_fix_columns`,
+`contrast_coded_factor_on_reuse` and `treatment_base_on_reuse`. So a contrast-coded factor enters an
+interaction through rows of its coding matrix exactly as it enters a main effect. -/
+theorem generated_columns_are_products_of_encodings (specs : List Spec) (fr : Frame) (order : List String)
+    (rs : List Result) (h : replay specs fr order = .ok rs) :
+    ∃ cache drop, ∀ p ∈ specs.zip rs,
+      ∃ runs : List TermRun, runs.map (·.t) = p.1.structure_ ∧ p.2.cols = runs.flatMap (·.fin) ∧
+        ∀ r ∈ runs, ∀ e ∈ r.gen, ∃ st ∈ r.t.scopedTerms,
+          (e = ⟨"Intercept", List.replicate (nRetained fr drop) (some st.scale)⟩) ∨
+          ∃ rp, productEntry st.scale rp = .ok e ∧
+            ∀ c ∈ rp, ∃ sf ∈ st.factors, ∃ ev, dget sf.expr cache = some ev ∧
+              ∃ enc w, encodeFactor p.1 fr drop ev sf.reduced = .ok (enc, w) ∧ c ∈ enc := by
+  obtain ⟨es, cache, drop, _, _, hb⟩ := replay_ok specs fr order rs h
+  obtain ⟨_, hz⟩ := buildAll_zip fr drop cache specs rs hb
+  refine ⟨cache, drop, fun p hp => ?_⟩
+  obtain ⟨runs, h1, h2, h3, _, _, _⟩ := buildMatrix_runs p.1 fr drop cache p.2 (hz p hp)
+  refine ⟨runs, h1, h3, ?_⟩
+  intro r hr e he
+  obtain ⟨_, horig⟩ := termColumns_inv p.1 fr drop cache r.t r.gen r.warn (h2 r hr).1
+  exact rawOrigin_factors p.1 fr drop cache r.t e (horig e he)
+
+/-- C09.6f  `custom_names_mismatch_is_error`: `names=` that do not match the columns of a custom
+contrast array / dictionary are the ValueError of `CustomContrasts.__init__` … -/
+theorem custom_names_mismatch_is_error (a : CustomArg) (ns : List String) (v : List Rat) (vs : List (List Rat))
+    (hn : a.names = some ns) (hv : a.vectors = v :: vs)
+    (hm : ns.length ≠ (if a.isDict then a.vectors.length else v.length)) :
+    customInit a = .error .valueError :=
+  customInit_names_mismatch a ns v vs hn hv hm
+
+/-- C09.6g  `bad_contrast_argument_never_matrix`: … and a factor whose `contr.custom(…)` argument cannot
+be constructed on the reuse's evaluation context (mismatching names, a ragged matrix, an empty
+dictionary) makes the replay an error — a `FactorEvaluationError` when no other factor fails
+differently — never a matrix, in every iteration order. -/
+theorem bad_contrast_argument_never_matrix (specs : List Spec) (fr : Frame) (order : List String)
+    (es : EvalSpec) (d : FactorDecl) (c : Contr) (ls : Option (List Val)) (e : Err)
+    (hes : prepareEvalSpec specs = .ok es) (hd : d ∈ pooledFactors specs) (hord : d.expr ∈ order)
+    (hvia : d.via = .cwrap c ls) (hbad : ctorCheck c = .error e) :
+    (∃ e', replay specs fr order = .error e') ∧
+    ((∀ g ∈ pooledFactors specs, ∀ dr e', evalFactor es fr g dr = .error e' → e' = .factorEvaluation) →
+      replay specs fr order = .error .factorEvaluation) := by
+  obtain ⟨pre, post, hsplit, hfirst⟩ := orderedFactors_split specs order d hd hord
+  have hev := fun dr => evalFactor_bad_ctor es fr d dr c ls e hvia hbad
+  refine ⟨?_, ?_⟩
+  · obtain ⟨e', he'⟩ := evalPhase_never_ok es fr .factorEvaluation d hev pre post [] [] rfl hfirst
+    exact ⟨e', by simp [replay, hes, hsplit, he']⟩
+  · intro hothers
+    have := evalPhase_error_at es fr .factorEvaluation d hev pre post [] [] rfl hfirst
+      (fun g hg dr e' he => hothers g (orderedFactors_sub specs order g (by rw [hsplit]; simp [hg])) dr e' he)
+    simp [replay, hes, hsplit, this]
+
+/-! ## Every route: outputs, `attr_overrides`, one materializer object serving several calls -/
+
+/-- C09.7a  `replay_output_irrelevant`: the outcome of a reuse — error class, column names, values and
+the `DataMismatchWarning` flag — is the same for every output other than `narwhals` (pandas, numpy,
+sparse: the dense and the sparse encoder alike). The correspondence ties each of these routes, and
+the pandas / narwhals / pyarrow input routes, to this one model. -/
+theorem replay_output_irrelevant (o o' : Output) (ho : o ≠ .narwhals) (ho' : o' ≠ .narwhals)
+    (specs : List Spec) (fr : Frame) (order : List String) :
+    replayWith { output := some o } specs fr order = replayWith { output := some o' } specs fr order :=
+  replayWith_output_irrelevant o o' ho ho' specs fr order
+
+/-- C09.7b  `override_keeps_record`: `get_model_matrix(data, **attr_overrides)` cannot touch what was
+recorded: encoder state (kinds and levels), structure, terms, transform state. -/
+theorem override_keeps_record (o : Overrides) (s : Spec) :
+    (o.apply s).encoderState = s.encoderState ∧ (o.apply s).structure_ = s.structure_ ∧
+    (o.apply s).terms = s.terms ∧ (o.apply s).transformState = s.transformState ∧
+    (∀ d, nominatedLevels (o.apply s) d = nominatedLevels s d) :=
+  ⟨rfl, rfl, rfl, rfl, fun _ => rfl⟩
+
+/-- C09.7c  `override_kind_change_never_matrix`: … so a kind change is an error under any overrides of
+`na_action`, `output`, `ensure_full_rank` too. -/
+theorem override_kind_change_never_matrix (o : Overrides) (s : Spec) (fr : Frame) (order : List String)
+    (d : FactorDecl) (r : RecState) (k : Kind)
+    (hd : d ∈ pooledFactors [s]) (hord : d.expr ∈ order)
+    (hrec : dget d.expr s.encoderState = some r)
+    (hk : newKind fr d = .ok k) (hne : k ≠ r.kind) :
+    ∃ e, replayWith o [s] fr order = .error e := by
+  obtain ⟨es, hes⟩ : ∃ es, prepareEvalSpec [o.apply s] = .ok es := by simp [prepareEvalSpec]
+  have hsee := (eval_spec_sees_recorded_kinds [o.apply s] es hes).1 (o.apply s) rfl d.expr
+  have hd' : d ∈ pooledFactors [o.apply s] := hd
+  exact kind_change_never_matrix [o.apply s] fr order es d r k hes hd' hord (hsee.trans hrec) hk hne
+
+/-- C09.7d  `override_names_recorded`: … and a successful reuse under overrides returns the recorded names. -/
+theorem override_names_recorded (o : Overrides) (specs : List Spec) (fr : Frame) (order : List String)
+    (rs : List Result) (h : replayWith o specs fr order = .ok rs) :
+    rs.length = specs.length ∧ ∀ p ∈ specs.zip rs,
+      p.2.names = p.1.structure_.flatMap (fun t => dictKeys t.columns) := by
+  obtain ⟨hl, hz⟩ := replay_names_recorded (specs.map o.apply) fr order rs h
+  refine ⟨by simpa using hl, ?_⟩
+  intro p hp
+  have : (o.apply p.1, p.2) ∈ (specs.map o.apply).zip rs := by
+    rw [List.zip_map_left]
+    exact List.mem_map.mpr ⟨p, hp, rfl⟩
+  exact (hz _ this).1
+
+/-- C09.7d'  `no_overrides_is_plain_reuse`: without overrides the call is the plain reuse the other
+theorems speak about (the correspondence engine always runs `replayWith` / `replayDerivedWith`) -/
+theorem no_overrides_is_plain_reuse (specs : List Spec) (steps : List Step) (fr : Frame) (order : List String) :
+    replayWith {} specs fr order = replay specs fr order ∧
+    replayDerivedWith {} specs steps fr order = replayDerived specs steps fr order := by
+  have hid : ∀ l : List Spec, l.map ({} : Overrides).apply = l := by
+    intro l
+    conv => rhs; rw [← List.map_id l]
+    apply List.map_congr_left
+    intro s _
+    cases s; rfl
+  refine ⟨by simp [replayWith, hid], ?_⟩
+  simp only [replayDerivedWith, replayDerived, replayWith, hid]
+
+/-- C09.7e  `materializer_history_irrelevant`: `get_model_matrix` on a materializer OBJECT that already
+served other calls — successful ones, or one that failed after its factors were evaluated — answers
+exactly like a new materializer: whatever the object's `factor_cache` holds, the call starts by
+emptying it, so every factor of the recorded spec goes through both kind guards again. -/
+theorem materializer_history_irrelevant (m : MatState) (specs : List Spec) (fr : Frame) (order : List String) :
+    (getModelMatrix m specs fr order).2 = replay specs fr order :=
+  getModelMatrix_eq_replay m specs fr order
+
+/-- C09.7f  `replay_order_irrelevant`: the order in which Python iterates the pooled `set` of factors
+(a parameter of the model, recorded from the live run) does not influence a reuse: for any two
+duplicate-free orders over the same expressions, one replay returns matrices iff the other does — the
+very same names, values, warning flags and `_enforce_structure` branches — and one fails iff the other
+fails (only WHICH factor's error surfaces first may differ). The rows to drop are collected as a set,
+the factor cache is read by lookup, and every factor is evaluated on its own. -/
+theorem replay_order_irrelevant (specs : List Spec) (fr : Frame) (o₁ o₂ : List String)
+    (hn₁ : o₁.Nodup) (hn₂ : o₂.Nodup) (hm : ∀ e, e ∈ o₁ ↔ e ∈ o₂) :
+    (∀ rs, replay specs fr o₁ = .ok rs ↔ replay specs fr o₂ = .ok rs) ∧
+    ((∃ e, replay specs fr o₁ = .error e) ↔ (∃ e, replay specs fr o₂ = .error e)) := by
+  have h12 := replay_order_ok specs fr o₁ o₂ hn₁ hn₂ hm
+  have h21 := replay_order_ok specs fr o₂ o₁ hn₂ hn₁ (fun e => (hm e).symm)
+  refine ⟨fun rs => ⟨h12 rs, h21 rs⟩, ?_⟩
+  constructor
+  · rintro ⟨e, he⟩
+    cases h2 : replay specs fr o₂ with
+    | error e' => exact ⟨e', rfl⟩
+    | ok rs => rw [h21 rs h2] at he; simp at he
+  · rintro ⟨e, he⟩
+    cases h1 : replay specs fr o₁ with
+    | error e' => exact ⟨e', rfl⟩
+    | ok rs => rw [h12 rs h1] at he; simp at he
+
+/-! ## Sessions: one recorded spec applied again and again -/
+
+/-- C09.8a  `application_keeps_recorded_state`: an application leaves every recorded spec exactly as
+it found it (encoder state included), provided the parts agree on the kind they record for a factor
+and every entry of a categorical factor records the very levels the reuse nominates — its own
+categories, equal to an explicit `levels=` argument if there is one. That is the state every fit
+leaves. (Without recorded categories the first application writes the levels it found into the spec:
+`specAfter`.) -/
+theorem application_keeps_recorded_state (specs : List Spec) (fr : Frame) (order : List String)
+    (rs : List Result) (specs' : List Spec)
+    (h : replayState specs fr order = .ok (rs, specs'))
+    (hkinds : ∀ s ∈ specs, ∀ s' ∈ specs, ∀ e r r', (e, r) ∈ s.encoderState →
+      dget e s'.encoderState = some r' → r'.kind = r.kind)
+    (hset : ∀ s ∈ specs, ∀ d ∈ pooledFactors specs, ∀ r, (d.expr, r) ∈ s.encoderState →
+      r.kind = .categorical → ∃ L, nominatedLevels s d = some L ∧ r.levels = some L) :
+    specs' = specs ∧ replay specs fr order = .ok rs := by
+  refine ⟨replayState_keeps_specs specs fr order rs specs' h hkinds hset, ?_⟩
+  have := replayState_fst specs fr order
+  rw [h] at this
+  exact this.symm
+
+/-- C09.8b  `session_repeats_replay`: under the same hypotheses, applying the recorded specs to any
+sequence of data sets — each application starting from the specs as the previous one left them — gives,
+application by application, exactly what a first application to that data set gives: the same error,
+or the same names, values and `DataMismatchWarning` flag. An unseen level announced once is announced
+again every time it is met. -/
+theorem session_repeats_replay (specs : List Spec)
+    (hkinds : ∀ s ∈ specs, ∀ s' ∈ specs, ∀ e r r', (e, r) ∈ s.encoderState →
+      dget e s'.encoderState = some r' → r'.kind = r.kind)
+    (hset : ∀ s ∈ specs, ∀ d ∈ pooledFactors specs, ∀ r, (d.expr, r) ∈ s.encoderState →
+      r.kind = .categorical → ∃ L, nominatedLevels s d = some L ∧ r.levels = some L)
+    (apps : List (Frame × List String)) :
+    session specs apps = apps.map (fun a => replay specs a.1 a.2) :=
+  session_stable specs
+    (fun fr order rs specs' h => replayState_keeps_specs specs fr order rs specs' h hkinds hset) apps
 
 /-! ## Non-vacuity: concrete instances (evaluated by the kernel) -/
 
@@ -432,8 +716,8 @@ example : replay [exSpec] exLevels ["x", "1", "A"] = .ok [
 
 /-- the hypotheses of `consistent_spec_never_reshaped` hold for every term of `exSpec`: the names
 it generates from its own pinned levels are the recorded ones -/
-example : let ko : String → Option Kind := fun e =>
-      if e = "A" then some .categorical else if e = "x" then some .numerical else none
+example : let ko : String → Option (Kind × FactorDecl) := fun e =>
+      if e = "A" then some (.categorical, exA) else if e = "x" then some (.numerical, ⟨"x", .lookup, "x", none⟩) else none
     exSpec.structure_.map (termNames exSpec ko)
       = [some ["Intercept"], some ["A[T.b]", "A[T.c]"], some ["A[a]:x", "A[b]:x", "A[c]:x"]] := by
   decide
@@ -447,6 +731,162 @@ example : replay
     exLevels ["x"] = .ok [
       { cols := [⟨"x", [some 1, some 2, some 3]⟩, ⟨"x2", [some 1, some 2, some 3]⟩]
         warn := false, branches := [.broadcast], generated := [["x"]] }] := by
+  decide +kernel
+
+
+/-! ### contrasts, routes, sessions -/
+
+/-- the seven contrast classes of the live package are in the generated format table, and the
+reduced-rank formats are the ones the theorems above mention through `fieldName` -/
+example : ["TreatmentContrasts", "SASContrasts", "SumContrasts", "HelmertContrasts", "DiffContrasts",
+      "PolyContrasts", "CustomContrasts"].map (fun c => (formatOf c true).mid)
+    = ["[T.", "[T.", "[S.", "[H.", "[D.", "[", "["] := by decide
+
+example : (["TreatmentContrasts", "SASContrasts", "SumContrasts", "HelmertContrasts", "DiffContrasts",
+      "PolyContrasts", "CustomContrasts"].all
+    (fun c => FormulaicVerif.Gen.contrastFormats.any (fun r => r.cls == c))) = true := by decide
+
+def exSumA : FactorDecl := ⟨"C(A, contr.sum)", .cwrap .sum none, "A", none⟩
+
+/-- recorded spec of `C(A, contr.sum) + C(A, contr.sum):x` fitted on `A ∈ {a, b, c}` -/
+def exSumSpec : Spec :=
+  { terms := [[⟨"1", .literal 1, "", none⟩], [exSumA], [exSumA, ⟨"x", .lookup, "x", none⟩]]
+    structure_ := [⟨[⟨[], 1⟩], ["Intercept"]⟩,
+                   ⟨[⟨[⟨"C(A, contr.sum)", true⟩], 1⟩], ["C(A, contr.sum)[S.a]", "C(A, contr.sum)[S.b]"]⟩,
+                   ⟨[⟨[⟨"C(A, contr.sum)", false⟩, ⟨"x", false⟩], 1⟩],
+                     ["C(A, contr.sum)[a]:x", "C(A, contr.sum)[b]:x", "C(A, contr.sum)[c]:x"]⟩]
+    encoderState := [("C(A, contr.sum)", ⟨.categorical, some [.str "a", .str "b", .str "c"]⟩), ("x", ⟨.numerical, none⟩)]
+    transformState := []
+    naAction := .drop
+    ensureFullRank := true
+    output := .sparse }
+
+/-- sum coding on reuse: `a` ↦ (1, 0), the unseen `z` ↦ the zero row (with the warning), `c` ↦ (−1, −1);
+level `b` is absent and its column is still there -/
+example : replay [exSumSpec] exLevels ["x", "1", "C(A, contr.sum)"] = .ok [
+    { cols := [⟨"Intercept", [some 1, some 1, some 1]⟩,
+               ⟨"C(A, contr.sum)[S.a]", [some 1, some 0, some (-1)]⟩, ⟨"C(A, contr.sum)[S.b]", [some 0, some 0, some (-1)]⟩,
+               ⟨"C(A, contr.sum)[a]:x", [some 1, some 0, some 0]⟩, ⟨"C(A, contr.sum)[b]:x", [some 0, some 0, some 0]⟩,
+               ⟨"C(A, contr.sum)[c]:x", [some 0, some 0, some 3]⟩]
+      warn := true
+      branches := [.exact, .exact, .exact]
+      generated := [["Intercept"], ["C(A, contr.sum)[S.a]", "C(A, contr.sum)[S.b]"],
+                    ["C(A, contr.sum)[a]:x", "C(A, contr.sum)[b]:x", "C(A, contr.sum)[c]:x"]] }] := by
+  decide +kernel
+
+/-- the hypotheses of `contrast_coded_factor_on_reuse` hold for that factor -/
+example : IsMatrixCoded (callArgs exSumA).1 ∧
+    nominatedLevels exSumSpec exSumA = some [.str "a", .str "b", .str "c"] := ⟨trivial, by decide⟩
+
+/-- … a numeric `A` passed through `C(…)` IS categorical (no kind change: its numbers become unseen
+levels, announced, zero rows), while `x` arriving as text next to it is the encoding error -/
+example : (replay [exSumSpec] exNumeric ["x", "1", "C(A, contr.sum)"]).map (fun rs => rs.map (fun r => (r.warn, r.names.length)))
+    = .ok [(true, 6)] := by decide +kernel
+
+example : replay [exSumSpec]
+    { nrows := 1, cols := [("A", ⟨.categorical, [some (.str "a")], none⟩), ("x", ⟨.categorical, [some (.str "a")], none⟩)] }
+    ["x", "1", "C(A, contr.sum)"] = .error .factorEncoding := by decide +kernel
+
+/-- a custom contrast built by `contr.custom(M, names=N)` from the evaluation context: with matching
+names it codes `a, b, c` by the rows of `M`; with one name too many the reuse fails while the factor is
+evaluated (`custom_names_mismatch_is_error`, `bad_contrast_argument_never_matrix`) -/
+def exCustom (names : List String) : FactorDecl :=
+  ⟨"C(A, contr.custom(M, names=N))", .cwrap (.custom ⟨false, [[1, 2], [3, 4], [5, 6]], [], some names, true⟩) none, "A", none⟩
+
+def exCustomSpec (names : List String) : Spec :=
+  { exSumSpec with
+    terms := [[exCustom names]]
+    structure_ := [⟨[⟨[⟨"C(A, contr.custom(M, names=N))", true⟩], 1⟩],
+      ["C(A, contr.custom(M, names=N))[u]", "C(A, contr.custom(M, names=N))[v]"]⟩]
+    encoderState := [("C(A, contr.custom(M, names=N))", ⟨.categorical, some [.str "a", .str "b", .str "c"]⟩)] }
+
+example : (replay [exCustomSpec ["u", "v"]] exLevels ["C(A, contr.custom(M, names=N))"]).map (fun rs => rs.map (·.cols))
+    = .ok [[⟨"C(A, contr.custom(M, names=N))[u]", [some 1, some 0, some 5]⟩,
+            ⟨"C(A, contr.custom(M, names=N))[v]", [some 2, some 0, some 6]⟩]] := by decide +kernel
+
+example : replay [exCustomSpec ["u", "v", "w"]] exLevels ["C(A, contr.custom(M, names=N))"]
+    = .error .factorEvaluation := by decide +kernel
+
+/-- `contr.treatment(base='b')`: `b` is the reference level; a recorded level list without `b` makes the
+reuse fail (ValueError), whatever the data -/
+example : (codedColumns "K" (.treatment false (some (.str "b"))) true [.str "a", .str "b", .str "c"]
+      [some (.str "a"), some (.str "z")]).map (fun cs => cs.map (fun c => (c.name, c.vals)))
+    = .ok [("K[T.a]", [some 1, some 0]), ("K[T.c]", [some 0, some 0])] := by decide +kernel
+
+example : codedColumns "K" (.treatment false (some (.str "b"))) true [.str "a", .str "c"] [some (.str "a")]
+    = .error .valueError := by decide +kernel
+
+/-- `get_model_matrix(data, na_action='ignore')`: the override changes which rows survive, not the record -/
+example : (replayWith { naAction := some .ignore } [exSpec]
+      { nrows := 2, cols := [("A", ⟨.categorical, [some (.str "a"), none], none⟩),
+                             ("x", ⟨.numerical, [some (.num 1), some (.num 2)], none⟩)] }
+      ["x", "1", "A"]).map (fun rs => rs.map (fun r => (r.names, r.warn, r.cols.map (·.vals.length))))
+    = .ok [(["Intercept", "A[T.b]", "A[T.c]", "A[a]:x", "A[b]:x", "A[c]:x"], true, [2, 2, 2, 2, 2, 2])] := by
+  decide +kernel
+
+/-- the reset at the start of `get_model_matrix` is what `materializer_history_irrelevant` rests on:
+WITHOUT it, a materializer whose earlier call (a fresh formula, no recorded kinds) left `A` in its
+factor cache as a numerical factor lets the D10 input through — neither guard runs, and the single
+numeric column is copied under every recorded dummy name -/
+example : getModelMatrixNoReset ⟨[("A", ⟨exA, .numerical, [some (.num 5), some (.num 6)], none⟩)]⟩
+      [exSpec] exNumeric ["x", "1", "A"]
+    = .ok [{ cols := [⟨"Intercept", [some 1, some 1]⟩, ⟨"A[T.b]", [some 5, some 6]⟩, ⟨"A[T.c]", [some 5, some 6]⟩,
+                       ⟨"A[a]:x", [some 5, some 12]⟩, ⟨"A[b]:x", [some 5, some 12]⟩, ⟨"A[c]:x", [some 5, some 12]⟩]
+             warn := false, branches := [.exact, .broadcast, .broadcast]
+             generated := [["Intercept"], ["A"], ["A:x"]] }] := by
+  decide +kernel
+
+example : (getModelMatrix ⟨[("A", ⟨exA, .numerical, [some (.num 5), some (.num 6)], none⟩)]⟩
+      [exSpec] exNumeric ["x", "1", "A"]).2 = .error .factorEncoding := by decide +kernel
+
+/-- the hypotheses of `replay_order_irrelevant` for two iteration orders of the factors of `exSpec` -/
+example : (["x", "1", "A"] : List String).Nodup ∧ (["A", "x", "1"] : List String).Nodup ∧
+    ∀ e, e ∈ (["x", "1", "A"] : List String) ↔ e ∈ (["A", "x", "1"] : List String) := by
+  refine ⟨by decide, by decide, fun e => ?_⟩
+  simp only [List.mem_cons, List.not_mem_nil, or_false]
+  constructor <;> (intro h; rcases h with h | h | h <;> simp [h])
+
+/-- a session: the unseen `z` is announced by the first application AND by the second, and the spec is
+handed on unchanged (the hypotheses of `session_repeats_replay` hold for `exSpec`) -/
+example : (session [exSpec] [(exLevels, ["x", "1", "A"]), (exLevels, ["A", "x", "1"])]).map
+      (fun r => r.map (fun rs => rs.map (·.warn)))
+    = [.ok [true], .ok [true]] := by decide +kernel
+
+example : (replayState [exSpec] exLevels ["x", "1", "A"]).map (·.2) = .ok [exSpec] := by decide +kernel
+
+example : (∀ s ∈ [exSpec], ∀ s' ∈ [exSpec], ∀ e r r', (e, r) ∈ s.encoderState →
+      dget e s'.encoderState = some r' → r'.kind = r.kind) ∧
+    (∀ s ∈ [exSpec], ∀ d ∈ pooledFactors [exSpec], ∀ r, (d.expr, r) ∈ s.encoderState →
+      r.kind = .categorical → ∃ L, nominatedLevels s d = some L ∧ r.levels = some L) := by
+  have hp : pooledFactors [exSpec] = [⟨"1", .literal 1, "", none⟩, exA, ⟨"x", .lookup, "x", none⟩] := by decide
+  refine ⟨?_, ?_⟩
+  · intro s hs s' hs' e r r' hr hr'
+    simp only [List.mem_singleton] at hs hs'
+    subst hs; subst hs'
+    simp only [exSpec, List.mem_cons, Prod.mk.injEq, List.not_mem_nil, or_false] at hr
+    rcases hr with ⟨rfl, rfl⟩ | ⟨rfl, rfl⟩ <;> simp [exSpec, dget] at hr' <;> simp [← hr']
+  · intro s hs d hd r hr hk
+    simp only [List.mem_singleton] at hs
+    subst hs
+    rw [hp] at hd
+    simp only [List.mem_cons, List.not_mem_nil, or_false] at hd
+    rcases hd with rfl | rfl | rfl
+    · simp [exSpec] at hr
+    · simp only [exSpec, exA, List.mem_cons, Prod.mk.injEq, List.not_mem_nil, or_false] at hr
+      rcases hr with ⟨_, rfl⟩ | ⟨h, _⟩
+      · exact ⟨_, by decide, rfl⟩
+      · simp at h
+    · simp only [exSpec, List.mem_cons, Prod.mk.injEq, List.not_mem_nil, or_false] at hr
+      rcases hr with ⟨h, _⟩ | ⟨_, rfl⟩
+      · simp at h
+      · simp at hk
+
+/-- without recorded categories (a hand-edited spec) the first application writes the levels it found
+into the spec it was given -/
+example : (replayState [{ exSpec with encoderState := [("A", ⟨.categorical, none⟩), ("x", ⟨.numerical, none⟩)]
+                                      structure_ := [⟨[⟨[⟨"A", false⟩], 1⟩], ["A[a]", "A[c]", "A[z]"]⟩]
+                                      terms := [[exA]] }] exLevels ["A"]).map (fun p => p.2.map (·.encoderState))
+    = .ok [[("A", ⟨.categorical, some [.str "a", .str "c", .str "z"]⟩), ("x", ⟨.numerical, none⟩)]] := by
   decide +kernel
 
 /-! ### derived specs -/
